@@ -122,6 +122,17 @@ def check_vector(v):
         fn, fd = v["forbes"]
         if fd != 0 and a:
             cmp("forbes", fn / fd, outcome(lambda: float(forbes(sizes, A, B))), a_disjoint=v["apre"])
+        # three contigs: a and b on the first, a alone on the second, nothing on the third (the measures are sums over all contigs)
+        g3 = v["genome3"]
+        sizes3 = {"chr1": S, "chr2": S, "chr3": S}
+        if a and v["b"] and (v.get("_all") or hash(key) % 3 == 0):
+            from bionumpy.datatypes import Interval as _Iv
+            A3 = _Iv(["chr1"] * len(a) + ["chr2"] * len(a), np.array([x["s"] for x in a] * 2, dtype=int), np.array([x["e"] for x in a] * 2, dtype=int))
+            if g3["jaccard"][1] != 0:
+                cmp("jaccard[three contigs]", g3["jaccard"][0] / g3["jaccard"][1], outcome(lambda: float(jaccard(sizes3, A3, B))), a_disjoint=v["apre"])
+                cmp("Geometry.jaccard[three contigs]", g3["jaccard"][0] / g3["jaccard"][1], outcome(lambda: float(Geometry(sizes3).jaccard(A3, B))), a_disjoint=v["apre"])
+            if g3["forbes"][1] != 0:
+                cmp("forbes[three contigs]", g3["forbes"][0] / g3["forbes"][1], outcome(lambda: float(forbes(sizes3, A3, B))), a_disjoint=v["apre"])
         if v["apre"]:
             cmp("count_overlap", v["overlap"], outcome(lambda: int(count_overlap(A, B))))
             if a:
